@@ -231,7 +231,7 @@ protected:
 
     // Extracts, at least, the two first bytes because represent the VByte
     // encoding of the prefix length
-    while ((chunk.strLen - prevLen) < 2)
+    while (VByte::incomplete(chunk.str + prevLen, chunk.strLen - prevLen))
       end = table->processChunk(&chunk);
 
     // Appends the extracted chars before the common prefix
